@@ -55,7 +55,11 @@ func formatSchema(g *Gen, depth int) M {
 		}
 		return s
 	case 2:
-		return M{"type": "array", "items": formatSchema(g, depth-1)}
+		a := M{"type": "array", "items": formatSchema(g, depth-1)}
+		if r.Chance(400) {
+			a["uniqueItems"] = true // whatever a validator remembers about the items seen so far must not outlive an aborted call
+		}
+		return a
 	case 3:
 		return M{"type": "array", "items": []any{formatSchema(g, depth-1), formatSchema(g, depth-1)}}
 	case 4:
@@ -184,7 +188,8 @@ func genC11(seed uint64, withSpec bool) *Scenario {
 	}
 	v := newVocab(g, r.Range(1, 3), 1, 1, 2)
 	// format-heavy shapes join the vocabulary: they are both victims and revealers
-	for i := 0; i < r.Range(2, 4); i++ {
+	nfmt := r.Range(2, 4)
+	for i := 0; i < nfmt; i++ {
 		m := formatSchema(g, r.Range(0, 3))
 		vs := vocSchema{text: js(m), m: nil}
 		for k := 0; k < 3; k++ {
@@ -217,6 +222,11 @@ func genC11(seed uint64, withSpec bool) *Scenario {
 	case x < 50:
 		m := formatSchema(g, r.Range(1, 3))
 		op := Op{Kind: pick(r, []string{KAgainst, KAgainst, KSchemaRec}), Schema: js(m), Data: js(formatInstance(g, m, 0)), OrderSeed: orderSeedFor(r)}
+		if r.Chance(500) {
+			// a shape of the vocabulary: the suffix validates the very same schema again, with its other instances
+			vs := v.schemas[len(v.schemas)-1-r.Intn(nfmt)]
+			op.Schema, op.Data = vs.text, pick(r, vs.instances)
+		}
 		op.Fault = &Fault{Kind: "checker-panic"}
 		add(op, "victim")
 	case x < 65:
@@ -392,7 +402,7 @@ func init() {
 	register(&Prop{
 		ID: "C11", Level: "fault_enumeration",
 		Gen: func(seed uint64, tier string, idx int) *Scenario {
-			withSpec := idx%151 == 17
+			withSpec := idx%67 == 17
 			if tier == "thorough" {
 				withSpec = idx%37 == 17
 			}
